@@ -16,6 +16,8 @@ from . import simrun as R
 from . import sim_check as SC
 from . import disc_lib as L
 
+CLAIM_MORE = 'ALSO PROVED over the distribution semantics `law` (coq/Props/C12law.v, 37 statements; the deferred-decision step is no longer cited): for every event on the output, the law of a whole run of basic_discrete_SIR equals the law of flipping one coin per arc first and then running the deterministic simulator on the percolated digraph; the run returns with probability 1; final size = out-component of the initial nodes; percolation-based and basic agree in law on rows and node histories; basic_discrete_SIS = one coin per (step, arc); the generation sequence is the Reed-Frost / discrete-SIS Markov chain stopped by the loop condition. C12rec.v (recovery test), C12ord.v (iteration-order independence), C12sis.v.'
+
 CLAIM = dict(
     text="Machine-checked theorems (coq/Props/C12.v) over an executable model of the discrete-time simulators written as the code is "
          "(set iteration order as an explicit oracle): for every transmission rule that is a function of the contact, every graph, initial sets, "
